@@ -20,6 +20,7 @@ SeqToSet(q) == {q[j] : j \in DOMAIN q}
 RECURSIVE SumSeq(_, _)
 SumSeq(f(_), q) == IF q = <<>> THEN 0 ELSE f(Head(q)) + SumSeq(f, Tail(q))
 Count(P(_), q) == Cardinality({j \in DOMAIN q : P(q[j])})
+MaxOfSeq(q) == CHOOSE m \in {q[j] : j \in DOMAIN q} : \A j \in DOMAIN q : q[j] <= m
 F(idx, name, detail) == [rec |-> idx, pred |-> name, detail |-> ToString(detail)]
 
 Check(r, idx) ==
@@ -64,7 +65,11 @@ Check(r, idx) ==
     \* of a quiescent cache every recorded read has been delivered
     \o (IF r.libpanic = "" /\ r.rbuf # 0 THEN <<F(idx, "C17.read_buffer_not_drained", r.rbuf)>> ELSE <<>>)
     \* C07, concurrent form: a cache that never exceeds its maximum loses nothing to size eviction
-    \o (IF hasSize /\ r.sc.size = "count" /\ r.sc.keys <= r.sc.max /\ r.sc.setmax = <<>> /\ r.sc.stale = 0 /\ r.sc.smallbuf = 0
+    \* (weighted caches too: every key at its heaviest still fits - there the policy's running total can go below zero when a key's delete
+    \* event is applied before its add event, finding F25)
+    \o (IF hasSize /\ ((r.sc.size = "count" /\ r.sc.keys <= r.sc.max)
+                       \/ (r.sc.size = "weight" /\ r.sc.wt # <<>> /\ r.sc.keys * MaxOfSeq(r.sc.wt) <= r.sc.max))
+           /\ r.sc.setmax = <<>> /\ r.sc.stale = 0 /\ r.sc.smallbuf = 0
            /\ \E j \in DOMAIN evA : evA[j].c = "Overflow"
         THEN <<F(idx, "C07.overflow_within_maximum", <<r.sc.keys, r.sc.max, evA>>)>> ELSE <<>>)
     \o (IF r.status # 0 \/ r.wbuf # 0 THEN <<F(idx, "C14.pending", <<r.status, r.wbuf>>)>> ELSE <<>>)
